@@ -135,11 +135,12 @@ def uNum (rho : Mat α) (i k : Nat) : α :=
   sumR c.E (fun e => if (c.edge e).contains i then c.wt e * at2 rho e k else 0)
 /-- denominator `sum_d w[d,k] psiBar[d,k]`, `d = 0..D-2` -/
 def uDen (w bar : Mat α) (k : Nat) : α := sumR (c.D - 1) (fun d => at2 w d k * at2 bar d k)
-/-- value before `check_u` and the clamps; `lam` is the Lagrange multiplier (used iff `normalizeU`) -/
+/-- value before `check_u` and the clamps; `lam` is the Lagrange multiplier (used iff `normalizeU`); without
+normalisation a vanishing denominator gives 0 (the `where=non_zeros` guard, as in `_update_w`) -/
 def uRaw (lam : α) (rho w bar : Mat α) (i k : Nat) : α :=
   if c.normU then
     (if uNum c rho i k / uDen c w bar k < c.minv then 0 else uNum c rho i k) / (lam + uDen c w bar k)
-  else uNum c rho i k / uDen c w bar k
+  else if 0 < uDen c w bar k then uNum c rho i k / uDen c w bar k else 0
 
 def anyK (p : Nat → Bool) : Bool := (List.range c.K).any p
 
